@@ -131,6 +131,7 @@ class T4App(object):
         self.cut_after = None
         self.dead = False
         self.served = set()
+        self.snaps = None
 
     @property
     def ndef_file(self):
@@ -209,6 +210,8 @@ class T4App(object):
                 return None
             f[off:off + len(data)] = data
             self.writes += 1
+            if self.snaps is not None:
+                self.snaps.append(bytes(f))
             self.wlog.append((self.serial, off, len(data)))
             return b"\x90\x00"
         return b"\x6D\x00"
@@ -220,8 +223,8 @@ class T4Tag(TagSim):
 
     def __init__(self, app, tech="A", fsci=8, fwi=4, chunk=None, wtx=0,
                  wtxm=1, ats=None, uid=None, attrib_res=b"\x00"):
-        TagSim.__init__(self)
         self.app = app
+        TagSim.__init__(self)
         self.tech = tech
         self.fsci, self.fwi = fsci, fwi
         self.fsc = FSC_TABLE[min(fsci, 8)]
@@ -233,13 +236,22 @@ class T4Tag(TagSim):
         self.fsd = 256
         self.activated = False
 
-    @property
-    def dead(self):
-        return self.app.dead
+    def _fwd(name):
+        def get(self):
+            return getattr(self.app, name)
 
-    @dead.setter
-    def dead(self, v):
-        pass
+        def set_(self, v):
+            setattr(self.app, name, v)
+        return property(get, set_)
+
+    # state that lives in the card application
+    dead = _fwd("dead")
+    writes = _fwd("writes")
+    cut_after = _fwd("cut_after")
+    wlog = _fwd("wlog")
+    served = _fwd("served")
+    snaps = _fwd("snaps")
+    del _fwd
 
     @property
     def mem(self):
